@@ -388,12 +388,12 @@ var strLitFacts []*Term // ground facts about literals, included in every script
 var strLitOrder []string
 
 func strLen(s *Term) *Term {
-	B.DeclareFun("str.len", []string{SStr}, SBV(64))
-	return B.App("str.len", SBV(64), s)
+	B.DeclareFun("gs.len", []string{SStr}, SBV(64))
+	return B.App("gs.len", SBV(64), s)
 }
 func strAt(s, i *Term) *Term {
-	B.DeclareFun("str.at", []string{SStr, SBV(64)}, SBV(8))
-	return B.App("str.at", SBV(8), s, i)
+	B.DeclareFun("gs.at", []string{SStr, SBV(64)}, SBV(8))
+	return B.App("gs.at", SBV(8), s, i)
 }
 
 func strLit(s string) *Term {
